@@ -142,3 +142,27 @@ func verifH_C01_api() {
 	verifAssert(verifStrEq(code, wcode), "code-is-derive-of-decoded-secret")
 	verifAssert(*DefaultHOTPParam == defBefore, "default-param-unchanged")
 }
+
+// A returned code is a value: it shares no memory with pooled buffers or package state and is
+// unchanged by a later derivation (which reuses whatever scratch memory the implementation keeps).
+//
+//verif:harness prop=C01 name=value
+//verif:cases quick digits=6,8,9 alg=0,2
+//verif:cases thorough digits=1..10 alg=0..2
+//verif:opt hmac=fresh
+func verifH_C01_value() {
+	digits, alg := verifCase("digits"), verifCase("alg")
+	k1, k2 := verifBytes("a.key", 10), verifBytes("b.key", 10)
+	c1, c2 := verifU64("a.counter"), verifU64("b.counter")
+	verifPrefer(c1 != c2)
+	verifPrefer(k1[0] != k2[0])
+	code1, err1 := deriveRFC4226(k1, c1, digits, Algorithm(alg))
+	snap := string(append([]byte{}, code1...))
+	code2, err2 := deriveRFC4226(k2, c2, digits, Algorithm(alg))
+	verifObserve("code2", code2)
+	verifAssert(err1 == nil && err2 == nil, "no-error")
+	verifAssert(verifStrEq(code1, snap), "code-unchanged-by-a-later-derivation")
+	if verifSymbolic() {
+		verifAssert(verifResultOwned(code1) && verifResultOwned(code2), "code-shares-no-memory-with-pools-or-package-state")
+	}
+}
